@@ -29,6 +29,36 @@ claim("C12", "proof",
       "reaches no update call; the selectors read only `stall_gated` of guard state and run after the gate.",
       "DESIGN.md 5 C12", "")
 
+claim("C03", "other",
+      "predicate extraction (BDD path conditions of the selector loops, return formulas of the two `any` closures, stored gate value) + propositional entailment chain",
+      "The no-blackout argument is decided as implications between predicates extracted from the code, for all link-state "
+      "combinations the predicates admit: gated => any_healthy; HEALTHY => not gated, admitted by both selectors and connected; "
+      "cap skip only under any_unconstrained; UNCONSTR => admitted and connected; gate multiplier and phase weights positive; "
+      "initial best scores -1 / strict compare; get_score -1 only when disconnected; hysteresis only returns a link scored in this pass. "
+      "Found defect F4 (HEALTHY/UNCONSTR lacked `connected`), repaired in /repo.",
+      "DESIGN.md 5 C03", "Atoms are independent propositions (passes are sound); reachability of state combinations is not decided.")
+claim("C04", "other",
+      "reaching-definition analysis of the routing index at the forward site + admission-predicate entailment (BDD) per source + who-may-call",
+      "Every source of the index handle_srt_packet routes on is enumerated from the MIR (scheduler result, best-path override) and must "
+      "carry ELIG = !timed_out & schedulable & !stall_gated, inside its producer or as a use-site guard; both selectors' scoring predicates "
+      "entail ELIG and only scored links' indices are stored/returned; pre-registration forwarding is confined to !has_connected, which is "
+      "monotone; the data queue is fed only by the forwarder and the gated probe. Found defect F1 (override ignored eligibility), repaired.",
+      "DESIGN.md 5 C04", "")
+claim("C06", "proof",
+      "interval + symbolic abstract interpretation of every writer of `window` (discovered by who-may-write incl. &mut flows), path-sensitive snapshots for the fast-recovery thresholds",
+      "Inductive invariant: from window in [1000,60000] every one of the 9 writer bodies exits in [1000,60000] (constructor/reset exactly 20000), "
+      "every stored value is symbolically <= the entry value in the NAK writer and >= it in the ACK/recovery writers, fast recovery is entered "
+      "only with window <= 2000 and left only with window >= 12000 or in reset, time-based recovery is guarded by !classic, and the writer set "
+      "is closed over the whole workspace (pub field).",
+      "DESIGN.md 5 C06", "in-flight counts and clocks range over their full types; overflow asserts of the dev profile are discharged from the entry range.")
+claim("C10", "other",
+      "transitive read-set of the classic selector, value reconstruction of the score and window formulas (symbolic equivalence), mode-dispatch path conditions",
+      "The reference algorithm is decided clause by clause: the classic selector reads only capacity/eligibility inputs and no clock/RNG; "
+      "score = window / max(1, sat(in_flight+queued)+1) in i32 division, strict > in an ascending scan from -1; window rules min(w+29,60000) under "
+      "in_flight*1000 > w, min(w+1,60000) exactly when connected & received, max(w-100,1000); classic writer chosen iff mode is classic; "
+      "connected => last_received.is_some() kept by every writer; no time recovery and no route override in classic. Found the classic half of F1, repaired.",
+      "DESIGN.md 5 C10", "lock-step equality with an executable reference over histories is not decided.")
+
 NOT_APPLICABLE = {}
 ALL = ["C%02d" % i for i in range(1, 21)]
 
